@@ -76,7 +76,7 @@ func (h *c07h) extraJobs(root *rng, tier string, jobs *[]*c07job) {
 			}
 		}
 	}
-	nE := 150
+	nE := 300
 	if tier == "thorough" {
 		nE = 4000
 	}
@@ -90,6 +90,18 @@ func (h *c07h) extraJobs(root *rng, tier string, jobs *[]*c07job) {
 			e := h.genE(root.fork(), region)
 			add(func(j *c07job) { h.runE(j, e, region) })
 		}
+	}
+	nS := 80
+	if tier == "thorough" {
+		nS = 1200
+	}
+	for k := 0; k < nS; k++ {
+		s := h.genS(root.fork(), "")
+		add(func(j *c07job) { h.runS(j, s, "") })
+	}
+	for k := 0; k < nR/2+1; k++ {
+		s := h.genS(root.fork(), "after-cancel-before-eval")
+		add(func(j *c07job) { h.runS(j, s, "after-cancel-before-eval") })
 	}
 	nI := 2
 	if tier == "thorough" {
